@@ -158,6 +158,20 @@ Theorem C20_observation_canonical : forall l l', Permutation l l' -> obs_rows l 
 Proof. exact obs_rows_perm. Qed.
 Print Assumptions C20_observation_canonical.
 
+(* property layers are drawn from their CURRENT values: a write changes exactly one entry ... *)
+Theorem C20_layer_write_is_current : forall w h d x y v x' y',
+  layer_shape w h d -> 0 <= x < w -> 0 <= y < h -> 0 <= x' -> 0 <= y' ->
+  dget (layer_set d x y v) x' y' = if (x' =? x) && (y' =? y) then v else dget d x' y'.
+Proof. exact layer_set_get. Qed.
+Print Assumptions C20_layer_write_is_current.
+
+(* ... and, for every space with layers (imshow and hexagon mesh alike), what is shown at the
+   drawing position of each cell, rows first, is the layer's entry for that cell *)
+Theorem C20_layer_view_is_statement : forall sp d,
+  layer_view sp d = map (fun c => Some (dget d (fst c) (snd c))) (mesh_cells (sp_w sp) (sp_h sp)).
+Proof. exact layer_view_spec. Qed.
+Print Assumptions C20_layer_view_is_statement.
+
 (* ------------------------------------------------------------------ non-vacuity *)
 Definition ex_space : space :=
   {| sp_family := Hex; sp_w := 3; sp_h := 2; sp_x0 := 0; sp_y0 := 0; sp_single := false;
@@ -242,3 +256,8 @@ Example C20_example_run_case :
      [0; 2; 4; 3; 7; 1; 3; 0; 2; 4; 3; 3600; 1; 0; 1; 1];
      [0; 2; 2; 1; 0; 0; 0; 0; 1; 1; 0; 0; 2; 1; 1; 7; 1; 3; 0; 0; 1; 2]].
 Proof. vm_compute. reflexivity. Qed.
+
+Example C20_example_layer_write :
+  layer_shape 3 2 [[1; 2]; [3; 4]; [5; 6]] /\
+  layer_view ex_space (layer_set [[1; 2]; [3; 4]; [5; 6]] 2 0 9) = [Some 1; Some 3; Some 9; Some 2; Some 4; Some 6].
+Proof. split; [split; [reflexivity|repeat constructor]|vm_compute; reflexivity]. Qed.
